@@ -103,8 +103,10 @@ def gen_program(prng):
             if prng.random() < 0.35:
                 where = prng.choice(['task', 'task', 'branch'])
                 pubs[where][v] = make_value(prng, 't%d' % i, v)
-        for g in GLOBAL:
-            if prng.random() < 0.2:
+        for g in GLOBAL + ['v2']:
+            if prng.random() < (0.2 if g != 'v2' else 0.12):
+                # 'v2' is published both as a branch and as a global
+                # variable: the branch value shadows the global one
                 pubs['global'][g] = make_value(prng, 't%d' % i, g)
         if not edges:
             # clause-level publish needs a clause
@@ -113,6 +115,8 @@ def gen_program(prng):
             if pubs['global']:
                 edges['on-success' if out[i] == 'ok' else 'on-error'] = []
         tasks[i] = {'edges': edges, 'pubs': pubs,
+                    'derived': (prng.choice(BRANCH + GLOBAL)
+                                if prng.random() < 0.3 else None),
                     'mut': prng.random() < 0.15,
                     'lang': prng.choice(['yaql', 'jinja'])}
     P = {'n': n, 'parents': {str(k): v for k, v in parents.items()},
@@ -154,9 +158,13 @@ def to_yaml(P):
             d['join'] = 'all'
         ok = P['out'][str(i)] == 'ok'
         pubs = t['pubs']
-        if pubs['task']:
-            d['publish' if ok else 'publish-on-error'] = {
-                k: render(prng, v) for k, v in pubs['task'].items()}
+        tpub = {k: render(prng, v) for k, v in pubs['task'].items()}
+        if t.get('derived'):
+            # a publication computed from what the task itself sees
+            tpub['d%d' % i] = ("<%% $.get('%s') %%>" if lang == 'yaql' else
+                               "{{ _.get('%s') }}") % t['derived']
+        if tpub:
+            d['publish' if ok else 'publish-on-error'] = tpub
         firing = [cl for cl in t['edges']]
         # clause-level publishes go to one clause that fires
         carrier = None
@@ -201,43 +209,46 @@ def ancestors(P):
     return anc
 
 
-def allowed_branch(P, anc, tset, v):
-    """Values a branch variable may have given the set of causal ancestors."""
-    pubs = [i for i in tset if v in P['tasks'][str(i)]['pubs']['task'] or
-            v in P['tasks'][str(i)]['pubs']['branch']]
-    maximal = [p for p in pubs
-               if not any(p in anc[q] for q in pubs if q != p)]
-    if not maximal:
-        if v in P['input']:
-            return [P['input'][v]], 'input'
-        if v in P['vars']:
-            return [P['vars'][v]], 'vars'
-        return [None], 'unset'
-    vals = []
-    for p in maximal:
-        pp = P['tasks'][str(p)]['pubs']
-        vals.append(pp['task'][v] if v in pp['task'] else pp['branch'][v])
-    return vals, 'publishers %s' % ['t%d' % p for p in maximal]
+def _maximal(pubs, anc):
+    return [p for p in pubs if not any(p in anc[q] for q in pubs if q != p)]
 
 
-def allowed_global(P, anc, T, g, done_before):
-    """T None = workflow output."""
+def allowed(P, anc, T, name):
+    """Values the variable may have for task T (None = workflow output):
+    lookup order of the language - branch data, then the workflow context
+    (global publications, vars), then the workflow input."""
     n = P['n']
-    pubs = [i for i in range(n) if g in P['tasks'][str(i)]['pubs']['global']]
+    tset = set(range(n)) if T is None else anc[T]
+
+    def bval(p):
+        pp = P['tasks'][str(p)]['pubs']
+        return pp['task'][name] if name in pp['task'] else pp['branch'][name]
+    bp = [i for i in tset if name in P['tasks'][str(i)]['pubs']['task'] or
+          name in P['tasks'][str(i)]['pubs']['branch']]
+    bmax = _maximal(bp, anc)
+    if bmax:
+        return [bval(p) for p in bmax], 'branch publishers %s' % [
+            't%d' % p for p in bmax]
+    gp = [i for i in range(n)
+          if name in P['tasks'][str(i)]['pubs']['global']]
     if T is None:
-        mine = list(pubs)
-        conc = []
+        mine, conc = list(gp), []
     else:
-        mine = [p for p in pubs if p in anc[T]]
-        conc = [p for p in pubs if p != T and p not in anc[T] and
+        mine = [p for p in gp if p in anc[T]]
+        conc = [p for p in gp if p != T and p not in anc[T] and
                 T not in anc[p]]
-    maximal = [p for p in mine
-               if not any(p in anc[q] for q in mine if q != p)]
-    vals = [P['tasks'][str(p)]['pubs']['global'][g] for p in maximal + conc]
-    if not maximal:
-        vals.append(P['vars'].get(g))
-    return vals, 'global publishers %s, concurrent %s' % (
-        ['t%d' % p for p in maximal], ['t%d' % p for p in conc])
+    gmax = _maximal(mine, anc)
+    vals = [P['tasks'][str(p)]['pubs']['global'][name] for p in gmax + conc]
+    why = 'global publishers %s, concurrent %s' % (
+        ['t%d' % p for p in gmax], ['t%d' % p for p in conc])
+    if not gmax:
+        if name in P['vars']:
+            vals.append(P['vars'][name])
+            why += ', vars'
+        else:
+            vals.append(P['input'].get(name))
+            why += ', input' if name in P['input'] else ', unset'
+    return vals, why
 
 
 class StoredContext(Monitor):
@@ -418,51 +429,37 @@ def judge(P, anc, run, viol, res):
         vals += [P['input'].get(v), P['vars'].get(v)]
         all_values[v] = vals
     seen_tasks = set()
+
+    def check(T, name, got, what):
+        res['monitor_evaluations']['causal-publisher'] += 1
+        ok_vals, why = allowed(P, anc, T, name)
+        if not acceptable(got, ok_vals):
+            viol(classify(got, ok_vals, all_values[name]),
+                 '%s %s = %r; the causally latest publication is %r (%s)' % (
+                     what, name, got, ok_vals, why),
+                 value_shapes=shapes_of(got, ok_vals))
     for ev in evs:
         T = int(ev['t'][1:])
         seen_tasks.add(T)
         x = ev['x'] or {}
-        for v in BRANCH:
-            res['monitor_evaluations']['causal-publisher'] += 1
-            allowed, why = allowed_branch(P, anc, anc[T], v)
-            if not acceptable(x.get(v), allowed):
-                mech = classify(x.get(v), allowed, all_values[v])
-                viol(mech, 'task t%d sees %s = %r; the causally latest '
-                     'publication is %r (%s)' % (T, v, x.get(v), allowed,
-                                                 why),
-                     value_shapes=shapes_of(x.get(v), allowed))
-        for g in GLOBAL:
-            res['monitor_evaluations']['causal-publisher'] += 1
-            allowed, why = allowed_global(P, anc, T, g, None)
-            if not acceptable(x.get(g), allowed):
-                mech = classify(x.get(g), allowed, all_values[g])
-                viol(mech, 'task t%d sees global %s = %r; allowed %r (%s)'
-                     % (T, g, x.get(g), allowed, why),
-                     value_shapes=shapes_of(x.get(g), allowed))
+        for name in BRANCH + GLOBAL:
+            check(T, name, x.get(name), 'task t%d sees' % T)
         if x.get('e0') != ENV['e0']:
             viol('env', 'task t%d sees env().e0 = %r' % (T, x.get('e0')))
-    if seen_tasks != set(range(n)):
-        viol('run-failed', 'tasks that ran: %s of %d' % (sorted(seen_tasks),
-                                                         n))
+    if seen_tasks != set(range(n)) or len(evs) != n:
+        viol('run-failed', 'tasks that ran: %s of %d (%d action runs)' % (
+            sorted(seen_tasks), n, len(evs)))
         return
+    for t in run.rows['task'].values():
+        T = int(t['name'][1:])
+        name = P['tasks'][str(T)].get('derived')
+        if name:
+            pub = t.j('published') or {}
+            check(T, name, pub.get('d%d' % T),
+                  'task t%d publishes a copy of' % T)
     out = roots[0].j('output') or {}
-    allt = set(range(n))
-    for v in BRANCH:
-        res['monitor_evaluations']['causal-publisher'] += 1
-        allowed, why = allowed_branch(P, anc, allt, v)
-        if not acceptable(out.get(v), allowed):
-            viol(classify(out.get(v), allowed, all_values[v]),
-                 'workflow output %s = %r; the causally latest publication '
-                 'is %r (%s)' % (v, out.get(v), allowed, why),
-                 value_shapes=shapes_of(out.get(v), allowed))
-    for g in GLOBAL:
-        res['monitor_evaluations']['causal-publisher'] += 1
-        allowed, why = allowed_global(P, anc, None, g, None)
-        if not acceptable(out.get(g), allowed):
-            viol(classify(out.get(g), allowed, all_values[g]),
-                 'workflow output global %s = %r; allowed %r (%s)' % (
-                     g, out.get(g), allowed, why),
-                 value_shapes=shapes_of(out.get(g), allowed))
+    for name in BRANCH + GLOBAL:
+        check(None, name, out.get(name), 'workflow output')
 
 
 def kind_of(v):
